@@ -1,0 +1,167 @@
+//go:build verif
+
+package ssh
+
+// Hooks for /verif checks C32 and C33 (server user authentication). Add-only; compiled
+// only with -tags verif.
+//
+// VerifC32ServerAuthenticate runs the real (*connection).serverAuthenticate on a
+// connection whose transport is a scripted in-memory connTransport: readPacket hands out
+// the next packet of a pre-built list (io.EOF when the list is exhausted), writePacket
+// records the reply together with the number of packets read so far. No goroutine is
+// started and no key exchange takes place.
+//
+// VerifC32DialRaw is the client half of the version exchange and first key exchange
+// (the part of clientHandshake before clientAuthenticate) returning a raw packet pipe,
+// so that a scripted client can drive the public NewServerConn end to end.
+
+import (
+	"errors"
+	"io"
+	"net"
+	"time"
+)
+
+// VerifC32Reply is one packet written by the server during authentication.
+type VerifC32Reply struct {
+	Packet []byte // copy of the payload handed to writePacket
+	After  int    // number of packets the server had read when it wrote this one
+}
+
+// VerifC32Result is the outcome of one scripted authentication.
+type VerifC32Result struct {
+	Perms    *Permissions
+	Err      error
+	Replies  []VerifC32Reply
+	Consumed int    // packets handed out by readPacket
+	HitEOF   bool   // readPacket was called with the script exhausted
+	User     string // connection user when serverAuthenticate returned
+}
+
+type verifC32Transport struct {
+	in        [][]byte
+	pos       int
+	hitEOF    bool
+	out       []VerifC32Reply
+	sessionID []byte
+	algs      NegotiatedAlgorithms
+	onRead    func(n int)
+}
+
+func (t *verifC32Transport) readPacket() ([]byte, error) {
+	if t.pos >= len(t.in) {
+		t.hitEOF = true
+		return nil, io.EOF
+	}
+	p := t.in[t.pos]
+	t.pos++
+	if t.onRead != nil {
+		t.onRead(t.pos)
+	}
+	// The real transport hands out a buffer owned by the reader; give the code
+	// under test its own copy so a script can be replayed.
+	return append([]byte(nil), p...), nil
+}
+
+func (t *verifC32Transport) writePacket(p []byte) error {
+	t.out = append(t.out, VerifC32Reply{Packet: append([]byte(nil), p...), After: t.pos})
+	return nil
+}
+
+func (t *verifC32Transport) Close() error                        { return nil }
+func (t *verifC32Transport) getAlgorithms() NegotiatedAlgorithms { return t.algs }
+func (t *verifC32Transport) getSessionID() []byte                { return t.sessionID }
+func (t *verifC32Transport) waitSession() error                  { return nil }
+
+// verifC32Conn is a net.Conn that only knows its addresses.
+type verifC32Conn struct {
+	remote, local net.Addr
+}
+
+var errVerifC32NoIO = errors.New("verif: scripted connection has no byte stream")
+
+func (c *verifC32Conn) Read([]byte) (int, error)         { return 0, errVerifC32NoIO }
+func (c *verifC32Conn) Write([]byte) (int, error)        { return 0, errVerifC32NoIO }
+func (c *verifC32Conn) Close() error                     { return nil }
+func (c *verifC32Conn) LocalAddr() net.Addr              { return c.local }
+func (c *verifC32Conn) RemoteAddr() net.Addr             { return c.remote }
+func (c *verifC32Conn) SetDeadline(time.Time) error      { return nil }
+func (c *verifC32Conn) SetReadDeadline(time.Time) error  { return nil }
+func (c *verifC32Conn) SetWriteDeadline(time.Time) error { return nil }
+
+// VerifC32ServerAuthenticate runs serverAuthenticate with config exactly as given (the
+// defaults NewServerConn would fill in are NOT applied) over the scripted packets.
+// onRead, if non-nil, is called with the running count each time a packet is handed to
+// the server; callbacks can use it to attribute their invocation to a request.
+func VerifC32ServerAuthenticate(config *ServerConfig, sessionID []byte, remote net.Addr, packets [][]byte, onRead func(n int)) *VerifC32Result {
+	t := &verifC32Transport{in: packets, sessionID: sessionID, onRead: onRead}
+	s := &connection{
+		transport: t,
+		sshConn: sshConn{
+			conn:          &verifC32Conn{remote: remote, local: &net.TCPAddr{IP: net.IPv4(127, 0, 0, 1), Port: 22}},
+			sessionID:     sessionID,
+			clientVersion: []byte("SSH-2.0-verif-client"),
+			serverVersion: []byte("SSH-2.0-verif-server"),
+		},
+	}
+	perms, err := s.serverAuthenticate(config)
+	return &VerifC32Result{
+		Perms:    perms,
+		Err:      err,
+		Replies:  t.out,
+		Consumed: t.pos,
+		HitEOF:   t.hitEOF,
+		User:     s.user,
+	}
+}
+
+// VerifC32RawClient is an SSH client transport after the first key exchange, before
+// any service request.
+type VerifC32RawClient struct {
+	t    *handshakeTransport
+	conn net.Conn
+}
+
+// VerifC32DialRaw performs the version exchange and the first key exchange as a client
+// over c and returns the raw packet pipe.
+func VerifC32DialRaw(c net.Conn, config *ClientConfig) (*VerifC32RawClient, error) {
+	fullConf := *config
+	fullConf.SetDefaults()
+	clientVersion := []byte(packageVersion)
+	if fullConf.ClientVersion != "" {
+		clientVersion = []byte(fullConf.ClientVersion)
+	}
+	serverVersion, err := exchangeVersions(c, clientVersion)
+	if err != nil {
+		c.Close()
+		return nil, err
+	}
+	t := newClientTransport(newTransport(c, fullConf.Rand, true), clientVersion, serverVersion, &fullConf, "verif", c.RemoteAddr())
+	if err := t.waitSession(); err != nil {
+		c.Close()
+		return nil, err
+	}
+	return &VerifC32RawClient{t: t, conn: c}, nil
+}
+
+// SessionID returns the session identifier of the first key exchange.
+func (r *VerifC32RawClient) SessionID() []byte { return append([]byte(nil), r.t.getSessionID()...) }
+
+// WritePacket sends one payload.
+func (r *VerifC32RawClient) WritePacket(p []byte) error { return r.t.writePacket(p) }
+
+// ReadPacket returns a copy of the next payload. The transport turns a received
+// SSH_MSG_DISCONNECT into an error; it is handed out as the packet it was.
+func (r *VerifC32RawClient) ReadPacket() ([]byte, error) {
+	p, err := r.t.readPacket()
+	if d, ok := err.(*disconnectMsg); ok {
+		return Marshal(d), nil
+	}
+	if err != nil {
+		return nil, err
+	}
+	return append([]byte(nil), p...), nil
+}
+
+// Close closes the underlying connection and waits for the transport goroutines.
+func (r *VerifC32RawClient) Close() error { return r.t.Close() }
